@@ -10,9 +10,12 @@ From NV Require Import Common.Outcome Lang.Types Lang.Pattern.
 Import ListNotations.
 Open Scope Z_scope.
 
+(* Seq::len of a string is its UTF-8 byte length *)
+Definition utf8_len (c : N) : nat :=
+  if (c <? 128)%N then 1%nat else if (c <? 2048)%N then 2%nat else if (c <? 65536)%N then 3%nat else 4%nat.
 Definition seq_len (v : val) : option nat :=
   match v with
-  | VStr s => Some (length s)        (* only used on ASCII strings, where bytes = chars *)
+  | VStr s => Some (fold_right (fun c n => (utf8_len c + n)%nat) O s)
   | _ => match elements v with Some es => Some (length es) | None => None end
   end.
 
